@@ -71,27 +71,32 @@ SockAddr::SockAddr(const DomainSockPath &path)
 
 SockAddr::SockAddr(const struct sockaddr &addr, socklen_t len)
 {
+    bzero(&addr_, sizeof(addr_));   //! the bytes behind len must not be left indeterminate, type() reads ss_family
     ::memcpy(&addr_, &addr, len);
     len_ = len;
 }
 
 SockAddr::SockAddr(const struct sockaddr_in &addr)
 {
+    bzero(&addr_, sizeof(addr_));
     ::memcpy(&addr_, &addr, sizeof(addr));
     len_ = sizeof(addr);
 }
 
 SockAddr::SockAddr(const SockAddr &other)
 {
+    //! copy the whole storage: with only len_ bytes a copy of an empty address kept an indeterminate ss_family
     len_ = other.len_;
-    ::memcpy(&addr_, &other.addr_, len_);
+    ::memcpy(&addr_, &other.addr_, sizeof(addr_));
 }
 
 SockAddr& SockAddr::operator = (const SockAddr &other)
 {
     if (this != &other) {
+        //! copy the whole storage: with only len_ bytes the family and content of the old value survived
+        //! the assignment of an empty address (type()/toString() of the old value, toString() could throw)
         len_ = other.len_;
-        ::memcpy(&addr_, &other.addr_, len_);
+        ::memcpy(&addr_, &other.addr_, sizeof(addr_));
     }
     return *this;
 }
